@@ -10,18 +10,20 @@ TraceLog == ndJsonDeserialize(IOEnv.TRACE)
 VARIABLES l
 Ev == TraceLog[l]
 Word(s) == s          \* leads are logged as sequences of "T" / "S"
-Judged(e, ln) == ln.cls \in {"code", "pp"} \/ (ln.cls = "cmtstart" /\ ~e.cmtTabs)
+(* attr = inside a '[[ ]]' attribute that spans lines; ppcmt = a line of a directive whose first token is a comment: both   *)
+(* are judged like code / pp lines (the harness gives them their own signature)                                            *)
+Judged(e, ln) == ln.cls \in {"code", "pp", "attr", "ppcmt"} \/ (ln.cls = "cmtstart" /\ ~e.cmtTabs)
 BadLines(e) ==
   {i \in 1..Len(e.lines) :
      LET ln == e.lines[i]
-         iw == IF ln.cls = "pp" /\ e.ppiwt # -1 THEN e.ppiwt ELSE e.iwt
-     IN \/ (ln.cls \in {"code", "pp", "cmtstart"} /\ ln.trail /\ ~e.trailspace)
+         iw == IF ln.cls \in {"pp", "ppcmt"} /\ e.ppiwt # -1 THEN e.ppiwt ELSE e.iwt
+     IN \/ (ln.cls \in {"code", "pp", "cmtstart", "attr", "ppcmt"} /\ ln.trail /\ ~e.trailspace)
         \/ (ln.cls = "blank" /\ ln.lead # <<>> /\ ~e.singleNl /\ ~e.trailspace)
         \/ (Judged(e, ln) /\ ~LineOk(ln.lead \o <<"X">>, iw))}
 Kinds(e, i) ==
   LET ln == e.lines[i]
-      iw == IF ln.cls = "pp" /\ e.ppiwt # -1 THEN e.ppiwt ELSE e.iwt
-  IN (IF ln.cls \in {"code", "pp", "cmtstart"} /\ ln.trail THEN {"NoTrailingBlank"} ELSE {}) \cup
+      iw == IF ln.cls \in {"pp", "ppcmt"} /\ e.ppiwt # -1 THEN e.ppiwt ELSE e.iwt
+  IN (IF ln.cls \in {"code", "pp", "cmtstart", "attr", "ppcmt"} /\ ln.trail THEN {"NoTrailingBlank"} ELSE {}) \cup
      (IF ln.cls = "blank" /\ ln.lead # <<>> THEN {"NoTrailingBlank"} ELSE {}) \cup
      (IF Judged(e, ln) /\ iw = 0 /\ ~NoTabs(ln.lead) THEN {"SpacesOnlyIndent"} ELSE {}) \cup
      (IF Judged(e, ln) /\ iw \in {1, 2} /\ ~TsThenSs(ln.lead) THEN {"NoSpaceBeforeTabInIndent"} ELSE {})
